@@ -163,6 +163,12 @@ type Thread struct {
 	hb  [6]hbAct
 	nhb int
 
+	// run-length cap on identical consecutive observations (see note)
+	digestBefore uint64
+	lastObs      uint64
+	obsRep       int
+	ticked       bool
+
 	User any // harness data
 }
 
@@ -526,6 +532,8 @@ func (t *Thread) prepark() {
 		w.pcCache[ph] = si
 	}
 	t.stack = si.hash
+	t.digestBefore = t.digest
+	t.ticked = false
 	if !w.Opt.KeyHistory {
 		if t.resetDepth > 0 && si.depth <= t.resetDepth {
 			if si.hash == t.lastStack {
@@ -969,8 +977,26 @@ func (w *World) note(t *Thread, kind EventKind, ch *ChanState, idx int, vh uint6
 	if ok {
 		okv = 1
 	}
+	if t.Lib && !w.Opt.KeyHistory {
+		// A thread that keeps making the identical observation at the identical
+		// place (e.g. receiving from a closed channel in a retry loop) would never
+		// return to a known state; after obsCap repetitions further ones are not
+		// mixed in, so the loop closes in the state graph and is judged there.
+		obs := Mix(t.stack, uint64(kind), cid, uint64(idx+2), vh, okv)
+		if obs == t.lastObs && !t.ticked {
+			t.obsRep++
+		} else {
+			t.obsRep, t.lastObs = 0, obs
+		}
+		if t.obsRep >= obsCap {
+			t.digest = t.digestBefore
+			return
+		}
+	}
 	t.digest = Mix(t.digest, uint64(kind), cid, uint64(idx+2), vh, okv)
 }
+
+const obsCap = 8
 
 //go:norace
 func (w *World) tracef(format string, args ...any) {
@@ -999,6 +1025,7 @@ func (w *World) advanceClock(to int64) {
 	for _, t := range w.Threads {
 		if !t.done && !t.timeless {
 			t.digest = Mix(t.digest, 0x71c, uint64(d))
+			t.ticked = true
 		}
 	}
 }
